@@ -150,21 +150,21 @@ import (
 )
 
 // Model of sync.Map (engine side only): an association list per map object.
-type zzSMEntry struct{ k, v any }
-type zzSM struct{ ents []zzSMEntry }
+type zzSyncMapEnt struct{ k, v any }
+type zzSyncMapModel struct{ ents []zzSyncMapEnt }
 
-var zzSyncMaps = map[*zzsync.Map]*zzSM{}
+var zzSyncMaps = map[*zzsync.Map]*zzSyncMapModel{}
 
-func zzSMOf(m *zzsync.Map) *zzSM {
+func zzSyncMapOf(m *zzsync.Map) *zzSyncMapModel {
 	if sm, ok := zzSyncMaps[m]; ok {
 		return sm
 	}
-	sm := &zzSM{}
+	sm := &zzSyncMapModel{}
 	zzSyncMaps[m] = sm
 	return sm
 }
 func zzSyncMapLoad(m *zzsync.Map, k any) (any, bool) {
-	for _, e := range zzSMOf(m).ents {
+	for _, e := range zzSyncMapOf(m).ents {
 		if e.k == k {
 			return e.v, true
 		}
@@ -172,14 +172,14 @@ func zzSyncMapLoad(m *zzsync.Map, k any) (any, bool) {
 	return nil, false
 }
 func zzSyncMapStore(m *zzsync.Map, k, v any) {
-	sm := zzSMOf(m)
+	sm := zzSyncMapOf(m)
 	for i := range sm.ents {
 		if sm.ents[i].k == k {
 			sm.ents[i].v = v
 			return
 		}
 	}
-	sm.ents = append(sm.ents, zzSMEntry{k, v})
+	sm.ents = append(sm.ents, zzSyncMapEnt{k, v})
 }
 func zzSyncMapLoadOrStore(m *zzsync.Map, k, v any) (any, bool) {
 	if old, ok := zzSyncMapLoad(m, k); ok {
@@ -189,10 +189,10 @@ func zzSyncMapLoadOrStore(m *zzsync.Map, k, v any) (any, bool) {
 	return v, false
 }
 func zzSyncMapDelete(m *zzsync.Map, k any) {
-	sm := zzSMOf(m)
+	sm := zzSyncMapOf(m)
 	for i := range sm.ents {
 		if sm.ents[i].k == k {
-			sm.ents = append(append([]zzSMEntry(nil), sm.ents[:i]...), sm.ents[i+1:]...)
+			sm.ents = append(append([]zzSyncMapEnt(nil), sm.ents[:i]...), sm.ents[i+1:]...)
 			return
 		}
 	}
@@ -205,7 +205,7 @@ func zzSyncMapLoadAndDelete(m *zzsync.Map, k any) (any, bool) {
 	return v, ok
 }
 func zzSyncMapRange(m *zzsync.Map, f func(k, v any) bool) {
-	for _, e := range append([]zzSMEntry(nil), zzSMOf(m).ents...) {
+	for _, e := range append([]zzSyncMapEnt(nil), zzSyncMapOf(m).ents...) {
 		if !f(e.k, e.v) {
 			return
 		}
